@@ -535,7 +535,28 @@ def build(family, params):
     return F[family](**params)
 
 
-def grid(tier):
+def extra_configs(tier):
+    """Frozen random configurations (validated on the unchanged tree by tools/gen_zoo_extra.py): thorough uses all of them,
+    quick a subset that depends on VERIF_SEED (so that different seeds explore different parts)."""
+    import json as _json
+    import os as _os
+    f = _os.path.join(_os.path.dirname(_os.path.abspath(__file__)), "zoo_extra.json")
+    if not _os.path.exists(f):
+        return []
+    cfgs = [(a, b) for a, b in _json.load(open(f))["configs"]]
+    if tier == "thorough":
+        return cfgs
+    try:
+        seed = int(_os.environ.get("VERIF_SEED", "0"))
+    except ValueError:
+        seed = 0
+    r = random.Random("zoo_extra/%d" % seed)
+    k = min(len(cfgs), 160)
+    idx = sorted(r.sample(range(len(cfgs)), k))
+    return [cfgs[i] for i in idx]
+
+
+def grid(tier, extra=True):
     """List of (family, params).  quick: every family, minimal + odd/even
     sizes, every kind/order/edge/norm/engine value, axes 0 and -1;
     thorough: wider products."""
@@ -675,6 +696,7 @@ def grid(tier):
     add("Pad", dims=[3, 2], pad=[[1, 0], [2, 1]])
     add("Pad", dims=[2, 2, 2], pad=[[0, 1], [1, 0], [0, 2]])
     add("Transpose", dims=[3, 4], axes=[1, 0])
+    add("Transpose", dims=[3, 4], axes=[0, 1])      # identity permutation: known finding C15-transpose-identity
     add("Transpose", dims=[2, 3, 4], axes=[2, 0, 1])
     add("Transpose", dims=[2, 3, 4], axes=[1, 2, 0])
     add("Transpose", dims=[2, 3, 2], axes=[0, 2, 1])
@@ -806,4 +828,5 @@ def grid(tier):
             add("PoststackLinearModelling", nw=3, nt0=6, explicit=ex, kind=kind)
             add("PoststackLinearModelling", nw=4, nt0=5, spatdims=[2], explicit=ex, kind=kind)
         add("PrestackLinearModelling", nw=5, nt0=6, ntheta=3, spatdims=[2], explicit=ex)
-    return [x for x in g if x is not None]
+    g = [x for x in g if x is not None]
+    return g + (extra_configs(tier) if extra else [])
